@@ -1,4 +1,5 @@
 #include <stdbool.h>
+#include <stdint.h>
 #include "log.h"
 #include "mem.h"
 #include "public/module/structs/bst.h"
@@ -87,7 +88,10 @@ static inline int remove_node(m_bst_t *l, bst_node **elem) {
 }
 
 static int ptrcmp(void *userdata, void *node_data) {
-    return (userdata - node_data);
+    /* Compare addresses; do not return their difference, that would be truncated to int */
+    const uintptr_t a = (uintptr_t)userdata;
+    const uintptr_t b = (uintptr_t)node_data;
+    return (a > b) - (a < b);
 }
 
 static inline int traverse_preorder(bst_node *node, m_bst_cb cb, void *userptr) {
